@@ -157,12 +157,49 @@ def run(ses):
         for f, ak in vs:
             jobs += [(job_tamper, (p, f, ak, 'S3')), (job_tamper, (p, f, ak, 'S4'))]
         jobs.append((job_shape, (p,)))
+        if ses.tier == 'thorough': jobs += [(job_splice, (p, 'S3')), (job_splice, (p, 'S4'))]
     jobs += upper.tamper_jobs(ses.tier)
     run_jobs(ses, jobs)
     ses.trusted_base = TRUSTED
     ses.assumptions = ['the attacker knows the authentic token and may present ANY byte string as decoded payload and any dot-free text as footer segment; expected footer/assertion/key are those of the authentic token',
                        'lengths below 2^40']
-    ses.bounds.update({'attacker payload length': 'unbounded', 'authentic tokens known to the attacker': 1, 'not covered': 'splices of two authentic tokens under one key (thorough tier of a later round)'})
+    ses.bounds.update({'attacker payload length': 'unbounded', 'authentic tokens known to the attacker': 1, 'splices': 'two authentic tokens under one key in the thorough tier'})
 
 confirm = c01.confirm
 replay = c01.replay
+
+
+def job_splice(ses, proto, mode):
+    """thorough: the attacker knows TWO authentic tokens under one key (different nonces / messages / footers) and presents any payload that is neither of theirs"""
+    w = world(); ex = w.executor(); p = PROTOCOLS[proto]; public = p['p'] == 'Public'
+    a, b = Inputs(proto, '_1'), Inputs(proto, '_2')
+    b.K = a.K
+    if hasattr(a, 'seed'): b.seed = a.seed; b.PK = a.PK
+    b.assume = [c for c in Inputs(proto, '_2').assume if 'K_2' not in str(c) and 'seed_2' not in str(c)] + list(a.assume)
+    ak = 'some' if p['assertion'] else 'none'
+    Ea = [(s, r) for s, r in encrypt_paths(w, ex, a, 'some', ak) if is_ok(r)]; Eb = [(s, r) for s, r in encrypt_paths(w, ex, b, 'some', ak) if is_ok(r)]
+    tag = '%s splice %s' % (proto, mode)
+    for sa, ra in Ea:
+        for sb_, rb in Eb:
+            Ta, Tb = ra[3][0], rb[3][0]; H = header_literal(Ta)
+            Pa = Const('Pa', Bytes); seg = String('seg'); assume = list(sa.pc) + list(sb_.pc) + [Length(Pa) < 2**40]
+            if mode == 'S3': Tq = Concat(StringVal(H), b64(Pa)); dotfree = []
+            else:
+                Tq = Concat(StringVal(H), b64(Pa), StringVal('.'), seg); dotfree = [seg]; assume += [Not(Contains(seg, StringVal('.'))), Length(seg) < 2**40]
+            # parse side uses the first token's footer / assertion
+            D = decrypt_paths(w, ex, proto, Tq, a.dec_key(), a.F, a.A, 'some', ak, assume=assume, dotfree=dotfree)
+            def okset(T):
+                o = Or(tok_eq(Tq, T, dotfree), tok_eq(Tq, Concat(T, StringVal('.')), dotfree), tok_eq(Concat(Tq, StringVal('.')), T, dotfree))
+                if public:
+                    sl = SIGLEN[proto]; so = lambda x, y: And(Length(x) == Length(y), Extract(x, 0, Length(x) - sl) == Extract(y, 0, Length(y) - sl))
+                    o = Or(o, rel_tokens(Tq, T, so, dotfree), rel_tokens(Tq, Concat(T, StringVal('.')), so, dotfree), rel_tokens(Concat(Tq, StringVal('.')), T, so, dotfree))
+                return o
+            for sd, rd in D:
+                if not is_ok(rd): continue
+                h = honest_for([sa.log, sb_.log], a); mark_secret_mac_keys(h, list(sd.pc), a.K); with_compares(h, sd.log)
+                if public: h['honest_pks'] = [a.PK]
+                goal = Not(Or(And(okset(Ta), rd[3][0] == a.M), And(okset(Tb), rd[3][0] == b.M)))
+                rec = ses.obligation('%s: with two authentic tokens known, an accepted token is one of them (modulo empty footer segment / signature encoding) and returns that token\'s message' % tag,
+                                     list(sd.pc) + [goal], honest=h, attacker=[Pa])
+                if rec: ses.violation('%s: a splice of two authentic tokens is accepted' % tag, {}, None)
+    ses.absorb(ex)
